@@ -93,6 +93,17 @@ def prove_forward(src_root, kind, ex: Explorer):
                 ok, detail = False, f'{lab}: forwarded request differs from the incoming one'
                 break
         ctx.prove(f'C14.forward.{kind}.each-child-once[bounded]', ok, detail)
+        # unbounded form: ONE fan-out (contract C14.fanout.*: every child, all messages, no suspension) of ONE request equal to the incoming one
+        bc = t.broadcasts
+        okb = len(bc) == 1 and len(bc[0]) == 1 and isinstance(bc[0][0], Obj) and bc[0][0].cls.qual == 'DistributedSearchRequest.Request'
+        if okb:
+            g = bc[0][0]
+            same = z3.And(z3str(g.attrs['username']) == asker.t, z3int(g.attrs['ticket']) == z3int(msg.attrs['ticket']),
+                          z3str(g.attrs['query']) == z3str(msg.attrs['query']),
+                          z3int(g.attrs['unknown']) == (z3int(msg.attrs['unknown']) if spec['unknown'] == 'same' else spec['unknown']))
+            okb = ctx.valid(same)
+        ctx.prove(f'C14.forward.{kind}.one-fanout-of-the-same-search', okb,
+                  f'the search must be handed to the children in exactly one fan-out of one request with the same user, ticket and query (got {len(bc)} fan-outs)')
     ex.run(path, f'forward-{kind}')
 
 
